@@ -24,6 +24,14 @@ def jobs(tier, seed):
 
 # ---------------------------------------------------------------- operation catalogue
 
+def _finite_moderate(a):
+    """long histories can reach inf / NaN coefficients (inverses of nearly singular results, normal() of zero); in compiled mode
+    `taylor_expansions.exp` does not return on NaN (DESIGN section 7, observed and not claimed), so `exp` is only applied to finite operands"""
+    import numpy as np
+    v = np.asarray(a.value, dtype=float) if not np.iscomplexobj(a.value) else np.abs(a.value)
+    return bool(np.all(np.isfinite(v)) and (np.abs(v).max() if v.size else 0.0) < 1e8)
+
+
 def catalogue(L, conformal, g3c_tools):
     """list of (name, arity, callable(*mvs, rng) -> result). Results may be MultiVector, ndarray, scalar, bool, str, set, tuple"""
     import numpy as np
@@ -46,7 +54,7 @@ def catalogue(L, conformal, g3c_tools):
         ('astype-same-nocopy', 1, lambda a, r: a.astype(a.value.dtype, copy=False)), ('astype-f64-nocopy', 1, lambda a, r: a.astype(np.float64, copy=False)),
         ('getitem', 1, lambda a, r: a[()]), ('blades_list', 1, lambda a, r: a.blades_list),
         ('project', 2, lambda a, b, r: a(1).project(b) if True else None), ('join', 2, lambda a, b, r: a(1).join(b(2))),
-        ('meet', 2, lambda a, b, r: (a(2)).meet(b(2))), ('exp', 1, lambda a, r: (0.125 * a(2)).exp()),
+        ('meet', 2, lambda a, b, r: (a(2)).meet(b(2))), ('exp', 1, lambda a, r: (0.125 * a(2)).exp() if _finite_moderate(a) else +a(2)),
         ('join-raw', 2, lambda a, b, r: a.join(b)), ('meet-raw', 2, lambda a, b, r: a.meet(b)), ('project-raw', 2, lambda a, b, r: a.project(b)),
         ('leftmat', 1, lambda a, r: L.get_left_gmt_matrix(a)), ('array', 1, lambda a, r: cf.array([a, a]).value),
         ('hitzer', 1, lambda a, r: a.hitzer_inverse()),
